@@ -26,7 +26,8 @@ NONTRIVIAL = ('HDD: slot patterns with >=1 empty or multi-ON symbol (>=1 RNG dec
               'carry >=2 different energies, counted per distinct observation')
 
 ORDERS = [2, 4, 8, 16, 32, 64, 128, 256]
-NON_POWERS = [3, 5, 6, 7, 9, 10, 12, 24, 100, 255]
+NON_POWERS = [3, 5, 6, 7, 9, 10, 12, 24, 100, 255, 257, 1023, -1, -2, -4, -256]     # |.| = 2^k and 2^k +- 1 included
+# 0 is not a power of two either; it is kept under its own clause name (finding C12_1: ZeroDivisionError instead of ValueError)
 
 
 def log2i(M):
@@ -107,10 +108,41 @@ def string_spellings(bits, group=None):
     return out
 
 
+# sample dtypes of a 0/1 ndarray beyond the four core ones (uint8, bool, int64, float64).  complex128 with zero imaginary
+# part is an ndarray the three functions accept today (np.array(x, dtype=bool)); binary_sequence(complex) is not used.
+HDD_REUSED_FORMS = ('binary_sequence', 'ndarray:uint8', 'ndarray:bool', 'list')
+REUSED_FORMS = ('binary_sequence',)      # form on which a deterministic function is called a second time (its .data is used without a copy)
+EXTRA_BIT_DTYPES = ('int8', 'int16', 'int32', 'uint16', 'uint32', 'uint64', 'float16', 'float32', 'complex128')
+
+
+def arg_snapshot(obj):
+    """what a caller can observe of an argument object (None for immutable containers)"""
+    if isinstance(obj, np.ndarray):
+        return ('nd', obj.dtype.str, obj.shape, obj.tobytes())
+    if isinstance(obj, list):
+        return ('list', [repr(e) for e in obj])
+    if isinstance(obj, (str, tuple)):
+        return None
+    out = []
+    for name in ('data', 'signal', 'noise'):
+        a = getattr(obj, name, None)
+        out.append(None if a is None else (np.asarray(a).dtype.str, np.asarray(a).shape, np.asarray(a).tobytes()))
+    return ('obj', out)
+
+
+def arg_modified(fn, name, obj, snap, v):
+    """the functions RETURN a sequence; the argument object is the caller's (the received sequence is used again: BER
+    counting, a second decoder, the same object under another RNG state).  Any observable change of it is reported."""
+    if snap is not None and arg_snapshot(obj) != snap:
+        v.append((f'{fn}:argument-modified:{form_family(name)}', f'{fn} changed its argument object (form {name}): now {obj!r:.200}'))
+
+
 def container_forms(bits, with_dtypes=True, group=None, strings='all'):
     """every accepted container type holding the same 0/1 sequence.  `group`: block size of the grouped string
     spellings (M for slot sequences, log2 M for bit sequences); strings: 'all' = every spelling, 'core' = the separator-free
-    string + blank / comma / comma+blank between elements + blank between groups (CORE_SPELLINGS), 'plain' = no separators."""
+    string + blank / comma / comma+blank between elements + blank between groups (CORE_SPELLINGS), 'plain' = no separators.
+    with_dtypes: False = uint8 ndarray only, True = + bool/int64/float64, 'all' = every dtype / element type / layout /
+    write-protected variant (hardening pass)."""
     from opticomlib.typing import binary_sequence
     bits = [int(b) for b in bits]
     f = {}
@@ -126,6 +158,26 @@ def container_forms(bits, with_dtypes=True, group=None, strings='all'):
         f['ndarray:bool'] = np.array(bits, dtype=bool)
         f['ndarray:int64'] = np.array(bits, dtype=np.int64)
         f['ndarray:float64'] = np.array(bits, dtype=np.float64)
+    if with_dtypes == 'all':
+        # hardening pass: a 0/1 sequence in every sample dtype, element type and memory layout an accepted container can have
+        for dt in EXTRA_BIT_DTYPES:
+            f[f'ndarray:{dt}'] = np.array(bits, dtype=dt)
+        f['list:bool'] = [bool(b) for b in bits]
+        f['list:float'] = [float(b) for b in bits]
+        f['list:numpy-int64'] = [np.int64(b) for b in bits]
+        f['tuple:bool'] = tuple(bool(b) for b in bits)
+        f['tuple:numpy-float64'] = tuple(np.float64(b) for b in bits)
+        f['ndarray:uint8:strided-view'] = np.array([b for b in bits for _ in (0, 1)], dtype=np.uint8)[::2]
+        f['ndarray:bool:reversed-view'] = np.array(bits[::-1], dtype=bool)[::-1]
+        for k in ('ndarray:uint8', 'ndarray:bool', 'ndarray:int64'):
+            a = f[k].copy()
+            a.flags.writeable = False
+            f[k + ':write-protected'] = a
+        for k, src in (('binary_sequence(<ndarray:bool>)', np.array(bits, dtype=bool)),
+                       ('binary_sequence(<ndarray:float64>)', np.array(bits, dtype=np.float64)),
+                       ('binary_sequence:write-protected', list(bits))):
+            f[k] = binary_sequence(src)
+        f['binary_sequence:write-protected'].data.flags.writeable = False
     f['binary_sequence'] = binary_sequence(list(bits))
     # the spelling of the library's own docstrings (HDD(binary_sequence('0100 0111 0000'), 4)): object built from a string
     for k in ('str+sep:space/group', 'str+sep:space/element', 'str'):
@@ -137,8 +189,10 @@ def container_forms(bits, with_dtypes=True, group=None, strings='all'):
 
 def form_family(name):
     """violation-key suffix of a container form: 'str', 'str+sep', 'list', 'ndarray', 'binary_sequence', 'binary_sequence(str)'"""
-    if name.startswith('binary_sequence('):
+    if name.startswith('binary_sequence(<str'):
         return 'binary_sequence(str)'
+    if name.startswith('binary_sequence'):
+        return 'binary_sequence'
     return name.split(':')[0]
 
 
@@ -189,9 +243,13 @@ def enc_dec_one(bits, M, v, with_dtypes=True, strings='all'):
     obs = []
     base = None
     for name, obj in container_forms(bits, with_dtypes, group=log2i(M), strings=strings).items():
+        snap = arg_snapshot(obj)
         y = PPM_ENCODER(obj, M)
+        arg_modified('ENC', name, obj, snap, v)
         fam = form_family(name)
         vals = as_int_list(data_of(y)[0])
+        if name in REUSED_FORMS and as_int_list(data_of(PPM_ENCODER(obj, M))[0]) != vals:
+            v.append((f'ENC:same-object-reused:{fam}', f'bits={bits} M={M}: the second PPM_ENCODER call on the same {name} object differs'))
         if base is None:
             base = vals
             check_encoder_output(bits, M, y, v, f'form={name}')
@@ -202,10 +260,14 @@ def enc_dec_one(bits, M, v, with_dtypes=True, strings='all'):
     # decoder on the reference codeword (independent of the encoder) in every container form
     dbase = None
     for name, obj in container_forms(cw, with_dtypes, group=M, strings=strings).items():
+        snap = arg_snapshot(obj)
         z = PPM_DECODER(obj, M)
+        arg_modified('DEC', name, obj, snap, v)
         fam = form_family(name)
         a, tname = data_of(z)
         vals = as_int_list(a)
+        if name in REUSED_FORMS and as_int_list(data_of(PPM_DECODER(obj, M))[0]) != vals:
+            v.append((f'DEC:same-object-reused:{fam}', f'codeword={cw} M={M}: the second PPM_DECODER call on the same {name} object differs'))
         if dbase is None:
             dbase = vals
             if tname != 'binary_sequence':
@@ -223,16 +285,23 @@ def enc_dec_one(bits, M, v, with_dtypes=True, strings='all'):
     if rt != trunc:
         v.append(('DEC:roundtrip', f'bits={bits} M={M}: DEC(ENC(b)) = {rt}, expected b truncated to whole symbols = {trunc}'))
     obs.append(tuple(rt))
+    # chained call: the encoder's own output object through HDD ("identity on valid codewords"), whatever the RNG would answer
+    oc = call_hdd(y, M, TreeRNG(fill=-1))
+    if oc[:2] != ('ok', cw):
+        v.append(('CHAIN:HDD(ENC(b))!=ENC(b)', f'bits={bits} M={M}: HDD(PPM_ENCODER(b)) gives {oc[1]!r:.300}, the codeword is {cw}'))
+    elif as_int_list(data_of(y)[0]) != cw:
+        v.append(('HDD:argument-modified:binary_sequence', f'bits={bits} M={M}: HDD changed the encoder output object it was given'))
+    obs.append(tuple(oc[1]) if oc[0] == 'ok' else oc[:2])
     return tuple(obs)
 
 
 def enc_case(case):
-    """case = ('enc', M, L, value, strings): the bit string = L-digit big-endian binary of value; strings = which string
-    spellings join the container forms (see container_forms)"""
-    _, M, L, value, strings = case
+    """case = ('enc', M, L, value, strings, dtypes): the bit string = L-digit big-endian binary of value; strings = which string
+    spellings, dtypes = which ndarray dtypes / element types / layouts join the container forms (see container_forms)"""
+    _, M, L, value, strings, dtypes = case
     bits = [(value >> (L - 1 - i)) & 1 for i in range(L)]
     v = Viol()
-    obs = enc_dec_one(bits, M, v, strings=strings)
+    obs = enc_dec_one(bits, M, v, with_dtypes=dtypes, strings=strings)
     nt = (M, L, value) if L >= log2i(M) else False
     return res(viol=_dedup(v), obs=(M, L, obs), nontrivial=nt, stats={'enc_words': 1})
 
@@ -302,9 +371,10 @@ class TreeRNG(ScriptedRNG):
     `randint`/`choice` is one node of the answer tree; the answer is an INDEX into the candidate
     list, taken from `prefix` and 0 ("first candidate") beyond it.  All decisions are recorded."""
 
-    def __init__(self, prefix=(), values=None):
+    def __init__(self, prefix=(), values=None, fill=0):
         super().__init__()
         self.prefix = tuple(prefix)
+        self.fill = fill              # answer beyond the prefix: 0 = first candidate, -1 = last candidate
         self.values = values          # conformance replay: answer by VALUE (recorded from the real RNG)
         self.dec = []                 # (fn, candidates tuple)
         self.answers = []
@@ -322,7 +392,7 @@ class TreeRNG(ScriptedRNG):
                 raise HarnessLimit(f'recorded real answer {val} is not among the candidates {cands[:8]}')
             idx = cands.index(val)
         else:
-            idx = self.prefix[i] if i < len(self.prefix) else 0
+            idx = self.prefix[i] if i < len(self.prefix) else (len(cands) - 1 if self.fill == -1 else 0)
             if idx >= len(cands):
                 raise HarnessLimit(f'answer tree is not deterministic: decision {i} has {len(cands)} candidates, script index {idx}')
         self.dec.append((fn, tuple(cands)))
@@ -353,19 +423,26 @@ class TreeRNG(ScriptedRNG):
         return np.array([arr[self._decide('choice', cands)] for _ in range(n)]).reshape(size)
 
 
-def call_hdd(x, M, rng):
-    """one execution of the real HDD under a scripted RNG.
-    returns ('ok', int list, type name) | ('exc', type name, text)"""
+def call_hdd_raw(x, M, rng, fn=None):
+    """one execution of the real HDD under a scripted RNG.  returns ('ok', returned object) | ('exc', type name, text)"""
     from opticomlib.ppm import HDD
     try:
         with scripted_rng(rng):
-            y = HDD(x, M)
+            y = (fn or HDD)(x, M)
     except (HarnessLimit, Unscripted) as e:
         # re-raised from a harness frame on purpose: exit 2 (result not trustworthy), never a VIOLATION
         raise RuntimeError(f'{type(e).__name__}: {e}') from None
     except Exception as e:  # noqa - anything the library raises under some RNG answer is an outcome
         return ('exc', type(e).__name__, str(e)[:200])
-    a, tname = data_of(y)
+    return ('ok', y)
+
+
+def call_hdd(x, M, rng, fn=None):
+    """returns ('ok', int list, type name) | ('exc', type name, text)"""
+    oc = call_hdd_raw(x, M, rng, fn)
+    if oc[0] == 'exc':
+        return oc
+    a, tname = data_of(oc[1])
     return ('ok', as_int_list(a), tname)
 
 
@@ -478,17 +555,21 @@ def explore_hdd(M, syms, max_dev, v):
 
 def hdd_case(case):
     """case = ('hdd', M, syms, max_dev, extras): syms = tuple of tuples of ON positions per symbol;
-    max_dev None = full tree; extras: 'forms' -> container forms on the default script,
+    max_dev None = full tree; extras: 'forms' -> container forms on the default script ('forms+': every dtype / element
+    type / layout / write-protected variant as well) + the same object passed again under other answers,
     'real' -> real-RNG outcomes must be leaves of the explored tree"""
     _, M, syms, max_dev, extras = case
     syms = tuple(tuple(s) for s in syms)
     v = Viol()
     outcomes, st = explore_hdd(M, syms, max_dev, v)
     bits = syms_to_pattern(syms, M).tolist()
-    if 'forms' in extras:
+    if 'forms' in extras or 'forms+' in extras:
         first = None
-        for name, obj in container_forms(bits, group=M).items():
+        forms = container_forms(bits, 'all' if 'forms+' in extras else True, group=M)
+        for name, obj in forms.items():
+            snap = arg_snapshot(obj)
             oc = call_hdd(obj, M, TreeRNG(()))
+            arg_modified('HDD', name, obj, snap, v)
             hdd_outcome_oracle(M, syms, oc, f'container form {name} = {obj!r:.120}, all answers = first candidate', v)
             # same slot sequence + same RNG answers => same result, whatever the container ("all accepted input container
             # types give the same result")
@@ -499,6 +580,19 @@ def hdd_case(case):
                           f'M={M} symbols={syms}, all answers = first candidate: form {name} = {obj!r:.120} gives {oc[1:]}, '
                           f'form {first[0]} gives {first[1][1:]}'))
             st['hdd_form_runs'] = st.get('hdd_form_runs', 0) + 1
+        # the SAME object passed again under other RNG answers: the result must be the one a fresh copy of the pattern gives
+        # under those answers (container clause + "all numpy seeds"); an HDD that repairs its argument in place pins the
+        # second call to the first outcome
+        fresh_last = call_hdd(np.array(bits, dtype=bool), M, TreeRNG(fill=-1))
+        for name in HDD_REUSED_FORMS:
+            obj = forms[name]           # already used once above (all answers = first candidate)
+            for fill, want in ((-1, fresh_last), (0, first[1])):
+                oc = call_hdd(obj, M, TreeRNG(fill=fill))
+                if oc != want:
+                    v.append((f'HDD:same-object-reused:{form_family(name)}',
+                              f'M={M} symbols={syms}: call on a {name} object that HDD has seen before, all answers = '
+                              f'{"last" if fill else "first"} candidate, gives {oc[1:]}; a fresh copy of the pattern gives {want[1:]}'))
+                st['hdd_form_runs'] = st.get('hdd_form_runs', 0) + 1
     if 'real' in extras and max_dev is None:
         from opticomlib.ppm import HDD
         for seed in range(4):
@@ -519,11 +613,25 @@ def hdd_case(case):
 
 
 def hdd_real_case(case):
-    """real-RNG conformance: case = ('hddreal', M, nslots, density, rng_seed, field_seed)"""
+    """real-RNG conformance: case = ('hddreal', M, nslots, density, rng_seed, field_seed); density: probability of an ON
+    slot (0.0 = silent record, 1.0 = every slot ON) or 'balanced' (total ON count = symbol count, empty and multi-ON symbols)"""
     from opticomlib.ppm import HDD
     _, M, nslots, dens, rseed, fseed = case
     rs = np.random.RandomState(zlib.crc32(repr(('hddreal', M, nslots, dens, fseed)).encode()))
-    x = rs.random_sample(nslots) < dens
+    if dens == 'balanced':
+        # as many ON slots as symbols, but not one each: every second symbol is emptied and its ON slot (or one more) is given
+        # to the next symbol - an HDD that looks at the TOTAL ON count sees nothing to repair
+        n = nslots // M
+        x = np.zeros((n, M), dtype=bool)
+        x[np.arange(n), rs.randint(0, M, n)] = True
+        for i in range(0, n - 1, 2):
+            if rs.randint(4):
+                x[i] = False
+                off = np.flatnonzero(~x[i + 1])
+                x[i + 1, off[rs.randint(off.size)]] = True
+        x = x.reshape(-1)
+    else:
+        x = rs.random_sample(nslots) < dens
     syms = tuple(tuple(np.flatnonzero(r).tolist()) for r in x.reshape(-1, M))
     v = Viol()
     # run A: real generator, requests and answers recorded by transparent wrappers
@@ -622,11 +730,16 @@ def sdd_dac_case(case):
                                           f'SDD:not-identity-on-DAC(codeword):{shape}', v)))
     # the chain the receiver uses: DEC(SDD(DAC(ENC(b)))) == b
     enc = PPM_ENCODER(np.array(bits, dtype=np.uint8), M)
-    rx = PPM_DECODER(SDD(DAC(enc, pulse_shape=shape), M), M)
+    soft = SDD(DAC(enc, pulse_shape=shape), M)
+    rx = PPM_DECODER(soft, M)
     got = as_int_list(data_of(rx)[0])
     if got != bits:
         v.append((f'CHAIN:DEC(SDD(DAC(ENC(b))))!=b:{shape}', f'M={M} sps={sps} shape={shape} b={bits}: got {got}'))
     obs.append(tuple(got))
+    # SDD's own output object through HDD: a valid codeword, so HDD is the identity on it whatever the RNG answers
+    oc = call_hdd(soft, M, TreeRNG(fill=-1))
+    if oc[:2] != ('ok', cw):
+        v.append(('CHAIN:HDD(SDD(DAC(codeword)))!=codeword', f'M={M} sps={sps} shape={shape} codeword ON positions={syms}: got {oc[1]!r:.300}'))
     gv_reset()
     return res(viol=_dedup(v), obs=(M, sps, shape, tuple(obs)), nontrivial=(M, sps, shape, syms), stats={'sdd_calls': 4})
 
@@ -749,6 +862,477 @@ def sdd_tie_case(case):
     return res(viol=_dedup(v), obs=tuple(obs), nontrivial=(M, sps, levels), stats={'sdd_calls': n})
 
 
+# =========================================================================== hardening pass: generic SDD oracle and input classes
+def sdd_decided(total, M, sps, eps):
+    """total: the waveform SDD is given (signal + noise), exact sample values as float64 / complex128.
+    Returns (winner per symbol, decided mask).  A symbol is DECIDED when every reading of "integrated energy of a slot" the
+    statement admits selects the same slot, uniquely, and by more than the rounding bound of a length-sps sum in the
+    dtype the library sums in (8*sps*eps*sum|terms|; eps = 0 when the sums are exact):
+        real waveform:     sum(x), sum(x^2)
+        complex waveform:  sum(Re x), sum(|x|^2), |sum(x)|   (what 'energy' means for a complex record is left open by the
+                           statement: only symbols on which all three agree are asserted)
+    Undecided symbols (ties, readings disagree) are only required to carry exactly one ON slot."""
+    blk = total.reshape(-1, M, sps)
+    if np.iscomplexobj(blk):
+        mag = np.abs(blk)
+        readings = [(blk.real.sum(axis=2), np.abs(blk.real).sum(axis=2)), ((mag ** 2).sum(axis=2), (mag ** 2).sum(axis=2)),
+                    (np.abs(blk.sum(axis=2)), mag.sum(axis=2))]
+    else:
+        readings = [(blk.sum(axis=2), np.abs(blk).sum(axis=2)), ((blk ** 2).sum(axis=2), (blk ** 2).sum(axis=2))]
+    win = readings[0][0].argmax(axis=1)
+    ok = np.ones(win.size, dtype=bool)
+    for r, mass in readings:
+        if M > 1:
+            srt = np.sort(r, axis=1)
+            ok &= (r.argmax(axis=1) == win) & (srt[:, -1] - srt[:, -2] > 8 * sps * eps * mass.max(axis=1))
+    return win, ok
+
+
+def summation_eps(total, lib_dtype, sps):
+    """0 if a length-sps sum of these samples is exact in the dtype the library sums in (integer dtypes: numpy sums them in
+    a 64-bit integer; float dtypes: integer-valued samples whose slot sums stay below 2^mantissa), else that dtype's eps"""
+    dt = np.dtype(lib_dtype)
+    if dt.kind in 'biu':
+        return 0.0
+    fin = np.finfo(dt)
+    parts = [total.real, total.imag] if np.iscomplexobj(total) else [total]
+    if all(np.all(p == np.round(p)) and np.abs(p).max(initial=0) * sps < 2.0 ** fin.nmant for p in parts):
+        return 0.0
+    return float(fin.eps)
+
+
+def check_sdd_general(y, total, M, sps, eps, what, key, v):
+    """the SDD clauses on an arbitrary waveform; returns (output values, number of decided symbols)"""
+    n = total.size // (M * sps)
+    a, tname = data_of(y)
+    a = np.asarray(a).ravel()
+    vals = a.astype(np.int64)
+    if (a != vals).any():
+        v.append(('SDD:non-binary', f'{what}: output {a[:32].tolist()}'))
+        return vals, 0
+    if tname != 'binary_sequence':
+        v.append(('SDD:return-type', f'SDD returned {tname}'))
+    if vals.size != n * M:
+        v.append(('SDD:length', f'{what}: output has {vals.size} slots, expected {n}*{M}'))
+        return vals, 0
+    if ((vals != 0) & (vals != 1)).any():
+        v.append(('SDD:non-binary', f'{what}: output {vals[:32].tolist()}'))
+        return vals, 0
+    rows = vals.reshape(n, M)
+    bad = np.flatnonzero(rows.sum(axis=1) != 1)
+    if bad.size:
+        v.append(('SDD:not-one-ON', f'{what}: symbol {bad[0]} of the output = {rows[bad[0]][:64].tolist()} ({bad.size} of {n} symbols)'))
+        return vals, 0
+    win, ok = sdd_decided(total, M, sps, eps)
+    got = rows.argmax(axis=1)
+    bad = np.flatnonzero(ok & (got != win))
+    if bad.size:
+        i = bad[0]
+        v.append((key, f'{what}: symbol {i}: output ON slot {got[i]}, the slot of largest integrated energy is {win[i]} '
+                       f'(slot sums {total.reshape(n, M, sps)[i].sum(axis=1)[:16].tolist()}; {bad.size} of {int(ok.sum())} decided symbols differ)'))
+    return vals, int(ok.sum())
+
+
+SDD_DTYPES = ('float64', 'bool', 'int8', 'uint8', 'int16', 'int32', 'int64', 'uint64', 'float16', 'float32', 'complex64', 'complex128',
+              'complex64:imag', 'complex128:imag')
+SDD_LAYOUTS = ('ndarray', 'list', 'tuple', 'ndarray:write-protected', 'ndarray:strided-view', 'electrical_signal',
+               'electrical_signal:write-protected', 'electrical_signal+zeros', 'electrical_signal+zeros:float32',
+               'electrical_signal+split:same', 'electrical_signal+split:float32', 'electrical_signal+split:int16',
+               'electrical_signal+split:complex64', 'electrical_signal+zero-sum-split')
+SDD_SCALES = (1.0, 1e-12, 1e-9, 1e-6, 1e6, 'offset')
+
+
+def sdd_variant_exists(dtype, layout, scale):
+    base = dtype.split(':')[0]
+    kind = np.dtype(base).kind
+    if scale != 1.0:
+        if scale == 'offset':
+            return kind in 'fc' and base != 'float16' or base in ('int32', 'int64', 'uint64')
+        return kind in 'fc' and base != 'float16'         # a float16 record has no room for 1e-12 ... 1e6
+    if '+split' in layout or '+zero-sum' in layout:
+        if kind == 'b':
+            return False                                    # bool + bool is a logical OR: no additive total field
+        if 'zero-sum' in layout and kind == 'u':
+            return False                                    # needs negative noise samples
+    return True
+
+
+def build_sdd_input(M, sps, nsym, dtype, layout, scale, rs):
+    """-> (object for SDD, total waveform as float64/complex128 exact values, dtype the library sums in).
+    The total is an integer field 0..100 (0/1 for bool; + j*(-30..30) for ':imag'), times `scale` or plus a 1e6 offset.
+    '+split:<dt>': the field is split into a signal and a noise component 0 <= n <= total of dtype <dt> (both parts
+    representable in every dtype used, so signal + noise is the field exactly; the winner of either part alone differs from
+    the winner of the sum on most symbols).  '+zero-sum-split': noise sums to zero over the record, not per slot."""
+    from opticomlib.typing import electrical_signal
+    base = dtype.split(':')[0]
+    dt = np.dtype(base)
+    N = nsym * M * sps
+    field = rs.randint(0, 2 if dt.kind == 'b' else 101, N).astype(np.int64)
+    cfield = field.astype(complex) + 1j * rs.randint(-30, 31, N) if dtype.endswith(':imag') else None
+
+    def cast(a, to=dt, dc=True):
+        if cfield is not None and a is field:
+            a = cfield
+        if scale == 'offset':
+            a = a + (1e6 if dc else 0.0)
+        elif scale != 1.0:
+            a = a * scale
+        return np.asarray(a).astype(to)
+
+    kind, _, ndt = layout.partition('+')
+    noise = None
+    if ndt.startswith('split') or ndt == 'zero-sum-split':
+        if ndt == 'zero-sum-split':
+            h = rs.randint(-20, 21, N // 2)
+            nint = np.concatenate([h, -h, np.zeros(N - 2 * (N // 2), dtype=np.int64)])
+        else:
+            nint = (rs.random_sample(N) * (field + 1)).astype(np.int64)           # 0 <= n <= field
+        ndtype = dt if ndt in ('split:same', 'zero-sum-split') else np.dtype(ndt.split(':')[1])
+        sig, noise = cast((cfield if cfield is not None else field) - nint), cast(nint, ndtype, dc=False)
+    else:
+        sig = cast(field)
+        if ndt.startswith('zeros'):
+            noise = np.zeros(N, dtype=dt if ndt == 'zeros' else np.dtype(ndt.split(':')[1]))
+    if kind.startswith('electrical_signal'):
+        obj = electrical_signal(sig.copy(), None if noise is None else noise.copy())
+        tot = obj.signal if obj.noise is None else obj.signal + obj.noise      # the library's own total field (C01): exact here
+        if noise is not None and not np.array_equal(tot, sig.astype(tot.dtype) + noise.astype(tot.dtype)):
+            raise RuntimeError('electrical_signal does not hold the samples it was given')
+        lib_dtype = tot.dtype
+        if kind.endswith('write-protected'):
+            for a in (obj.signal, obj.noise):
+                if a is not None:
+                    a.flags.writeable = False
+    else:
+        tot = sig
+        if kind == 'list':
+            obj = sig.tolist()
+        elif kind == 'tuple':
+            obj = tuple(sig.tolist())
+        elif kind == 'ndarray:strided-view':
+            obj = np.repeat(sig, 2)[::2]
+        else:
+            obj = sig.copy()
+            if kind.endswith('write-protected'):
+                obj.flags.writeable = False
+        lib_dtype = np.asarray(obj).dtype
+    total = np.asarray(tot).astype(complex if np.iscomplexobj(tot) else float)
+    return obj, total, lib_dtype
+
+
+def sdd_general_case(case):
+    """case = ('sddgen', M, sps, nsym, dtype, layout, scale, seed): one waveform class (sample dtype x container / noise layout
+    x scale) through the generic SDD oracle; the object is passed twice and must come back unchanged"""
+    from opticomlib.ppm import SDD
+    _, M, sps, nsym, dtype, layout, scale, seed = case
+    gv_reset(sps=sps, R=1e9)
+    rs = np.random.RandomState(zlib.crc32(repr(case).encode()))
+    obj, total, lib_dtype = build_sdd_input(M, sps, nsym, dtype, layout, scale, rs)
+    v = Viol()
+    what = f'M={M} sps={sps} nsym={nsym} samples={dtype} layout={layout} scale={scale}'
+    snap = arg_snapshot(obj)
+    y = SDD(obj, M)
+    arg_modified('SDD', layout, obj, snap, v)
+    vals, ndec = check_sdd_general(y, total, M, sps, summation_eps(total, lib_dtype, sps), what,
+                                   'SDD:not-argmax:' + ('noisy-signal' if '+split' in layout or '+zero-sum' in layout else
+                                                        'complex-samples' if dtype.endswith(':imag') else
+                                                        'scaled-samples' if scale != 1.0 else 'sample-dtype-or-container'), v)
+    again = np.asarray(as_int_list(data_of(SDD(obj, M))[0]))
+    if again.size != vals.size or (again != vals).any():
+        v.append(('SDD:same-object-reused', f'{what}: the second SDD call on the same object differs from the first'))
+    gv_reset()
+    return res(viol=_dedup(v), obs=(case[1:7], zlib.crc32(vals.tobytes())), nontrivial=case[1:7] if ndec else False,
+               stats={'sdd_calls': 2, 'sdd_symbols': nsym, 'sdd_undecided_symbols': nsym - ndec})
+
+
+# gv configurations for the call-history part: every documented way of fixing the grid (sps,R) (sps,fs) (R,fs), integer and
+# non-integer fs/R, fs alone (sps then follows from the R in force), a slot count N, another wavelength, sps = 1, a numpy sps.
+# SDD must use the sps IN FORCE at the call: read back from gv after each configuration (C14 checks gv itself).
+GV_MENU = (('sps=16,R', dict(sps=16, R=1e9)), ('sps=2,fs', dict(sps=2, fs=10e9)), ('R,fs->4', dict(R=2.5e9, fs=10e9)),
+           ('R,fs non-integer ratio', dict(R=1e9, fs=5.5e9)), ('sps=1,R', dict(sps=1, R=1e9)), ('fs alone', dict(fs=20e9)),
+           ('sps=8,R,N=64', dict(sps=8, R=1e9, N=64)), ('sps=5,R,1310nm', dict(sps=5, R=10e9, wavelength=1310e-9)),
+           ('sps=3,R', dict(sps=3, R=1e9)), ('sps=np.int64(4),R', dict(sps=np.int64(4), R=1e9)))
+SEQ_LEN = 20480          # 2^12 * 5: whole symbols for every order <= 256 at sps 1, 2, 4, 5, 8, 16, 20; never for sps 3 or 6
+
+
+def sdd_gv_sequence_case(case):
+    """case = ('sddseq', (i, j, ...), layout, orders, seed): gv configured by GV_MENU[i], then [j], ... WITHOUT cleaning in
+    between; after every configuration SDD runs on ONE shared input object for every order of `orders`.  Expected from the
+    sps gv reports at that moment: the generic oracle if the record is a whole number of symbols, else ValueError."""
+    import warnings
+    from opticomlib.ppm import SDD
+    from opticomlib.typing import gv
+    _, steps, layout, orders, seed = case
+    gv_reset()
+    rs = np.random.RandomState(zlib.crc32(repr(('sddseq', layout, seed)).encode()))
+    obj, total, lib_dtype = build_sdd_input(1, 1, SEQ_LEN, 'float64', layout, 1.0, rs)
+    snap = arg_snapshot(obj)
+    v = Viol()
+    obs = []
+    ncalls = 0
+    for pos, i in enumerate(steps):
+        with warnings.catch_warnings():
+            warnings.simplefilter('ignore')
+            gv(**GV_MENU[i][1])
+        sps = gv.sps
+        if sps != int(sps) or int(sps) < 1:
+            raise RuntimeError(f'gv.sps = {sps!r} after {GV_MENU[i][0]}')
+        sps = int(sps)
+        for M in orders:
+            what = f'gv history {[GV_MENU[k][0] for k in steps[:pos + 1]]} (gv.sps={sps}), M={M}, shared {layout} of {SEQ_LEN} samples'
+            ncalls += 1
+            try:
+                y = SDD(obj, M)
+            except ValueError as e:
+                if SEQ_LEN % (M * sps) == 0:
+                    v.append(('SDD:raises:ValueError:after-gv-reconfiguration', f'{what}: {e}'))
+                obs.append('VE')
+                continue
+            if SEQ_LEN % (M * sps):
+                v.append(('VE:SDD:length-not-whole-symbols:accepted', f'{what}: returned instead of raising ValueError'))
+                obs.append('ret')
+                continue
+            vals, _ = check_sdd_general(y, total, M, sps, 0.0, what, 'SDD:not-argmax:after-gv-reconfiguration', v)
+            obs.append(zlib.crc32(vals.tobytes()))
+    arg_modified('SDD', layout, obj, snap, v)
+    gv_reset()
+    return res(viol=_dedup(v), obs=(steps, layout, tuple(obs)), nontrivial=(steps, layout), stats={'sdd_calls': ncalls})
+
+
+# ---- the order given as something other than a Python int
+M_FORMS_EQUAL = ('keyword M=', 'keywords input=, M=', 'np.int8', 'np.uint8', 'np.int16', 'np.uint16', 'np.int32', 'np.uint32', 'np.int64', 'np.intp',
+                 '0d:int64', '0d:int32', '0d:uint8')
+# Forms the statement is silent about (the documented type is int): np.uint64 (uint64 - 1 is a float in numpy 1.x), floats
+# holding the integer value.  Either a rejection (TypeError / ValueError) or the result for the int - never another result.
+M_FORMS_EITHER = ('np.uint64', '0d:uint64', 'float', 'np.float64', 'np.float32', 'np.float16', '0d:float64')
+
+
+def make_order(M, form):
+    if form.startswith('keyword'):
+        return M                      # a call form, not a type: the order is passed by name (SDD(x, M=4) as in the docstrings)
+    if form == 'float':
+        return float(M)
+    kind, name = form.split(':') if ':' in form else ('np', form[3:])
+    dt = np.dtype(name)
+    if dt.kind in 'iu' and M > np.iinfo(dt).max:
+        return None
+    return np.array(M, dtype=dt) if kind == '0d' else dt.type(M)
+
+
+def order_form_case(case):
+    """case = ('mform', M, form, seed): all four functions with the order given as numpy scalar / 0-d array / float-valued;
+    the result must be the one for the Python int (the int results themselves are checked by all other parts)"""
+    from opticomlib.ppm import PPM_ENCODER, PPM_DECODER, SDD
+    _, M, form, seed = case
+    Mobj = make_order(M, form)
+    k = log2i(M)
+    rs = np.random.RandomState(zlib.crc32(repr(case).encode()))
+    nsym = 300 if M <= 16 else 40            # > 255 symbols / > 2^16 slots for the large orders: sizes a narrow order dtype cannot hold
+    if M == 256:
+        nsym = 260
+    bits = rs.randint(0, 2, nsym * k + k - 1).tolist()
+    _, cw = ref_encode(bits, M)
+    kinds = symbol_kinds(M)
+    syms = tuple(kinds[j] for j in rs.randint(0, len(kinds), 6)) + ((), tuple(range(M)))
+    pattern = syms_to_pattern(syms, M).astype(bool)
+    sps = 2
+    wave, total, lib_dtype = build_sdd_input(M, sps, 16, 'float64', 'ndarray', 1.0, rs)
+    v = Viol()
+    obs = []
+
+    def run(fn, f):
+        if fn == 'SDD':
+            gv_reset(sps=sps, R=1e9)
+        try:
+            return ('ok', f())
+        except Exception as e:  # noqa - compared below
+            return ('exc', type(e).__name__, str(e)[:120])
+
+    def by_form(fn):
+        """the library function, called the way `form` says"""
+        if form == 'keyword M=':
+            return lambda x, m: fn(x, M=m)
+        if form == 'keywords input=, M=':
+            return lambda x, m: fn(M=m, input=x)
+        return fn
+
+    def calls(g):
+        from opticomlib.ppm import HDD
+        return (('ENC', lambda m: as_int_list(data_of(g(PPM_ENCODER)(np.array(bits, dtype=np.uint8), m))[0])),
+                ('DEC', lambda m: as_int_list(data_of(g(PPM_DECODER)(np.array(cw, dtype=np.uint8), m))[0])),
+                ('HDD', lambda m: call_hdd(pattern.copy(), m, TreeRNG(fill=-1), fn=g(HDD))),
+                ('SDD', lambda m: as_int_list(data_of(g(SDD)(wave, m))[0])))
+
+    for (fn, plain), (_, formed) in zip(calls(lambda f: f), calls(by_form)):
+        want = run(fn, lambda: plain(M))
+        got = run(fn, lambda: formed(Mobj))
+        if fn == 'HDD' and got[0] == 'ok' and got[1][0] == 'exc':
+            got = got[1]
+        obs.append(zlib.crc32(repr(got).encode()))
+        if got == want:
+            continue
+        if got[0] == 'exc':
+            if form in M_FORMS_EITHER and got[1] in ('TypeError', 'ValueError'):
+                continue
+            v.append((f'M-form:{fn}:raises:{got[1]}', f'{fn}(..., M={Mobj!r} <{form}>) raised {got[1]}: {got[2]}; M={M} (int) works'))
+        else:
+            v.append((f'M-form:{fn}:result-differs-from-int-order', f'{fn}(..., M={Mobj!r} <{form}>) differs from the result for M={M} (int): '
+                                                                    f'{str(got[1])[:200]} vs {str(want[1])[:200]}'))
+    gv_reset()
+    return res(viol=_dedup(v), obs=(M, form, tuple(obs)), nontrivial=(M, form), stats={'mform_calls': 8})
+
+
+# ---- degenerate inputs: zero symbols
+def degenerate_case(case):
+    """case = ('empty', fn, M, form): a record of zero symbols (a whole number of symbols).  The statement's clauses are
+    vacuous on it; asserted is only that the call returns the empty sequence or rejects the input with ValueError."""
+    from opticomlib.ppm import PPM_ENCODER, PPM_DECODER, HDD, SDD
+    _, fn, M, form = case
+    gv_reset(sps=2, R=1e9)
+    obj = {'list': [], 'tuple': (), 'ndarray:bool': np.zeros(0, dtype=bool), 'ndarray:float64': np.zeros(0)}[form]
+    v = Viol()
+    try:
+        y = {'ENC': PPM_ENCODER, 'DEC': PPM_DECODER, 'HDD': HDD, 'SDD': SDD}[fn](obj, M)
+        out = as_int_list(data_of(y)[0])
+        if out:
+            v.append((f'{fn}:zero-symbols:non-empty-output', f'{fn}(<empty {form}>, {M}) returned {out[:32]}'))
+    except ValueError:
+        out = 'ValueError'
+    gv_reset()
+    return res(viol=v, obs=(fn, M, form, repr(out)), nontrivial=False)
+
+
+# ---- very long records (index arithmetic beyond 2^16 slots / symbols)
+def ref_positions(bits, M):
+    """big-endian value of every whole block of log2 M bits (numpy, integer arithmetic only)"""
+    k = log2i(M)
+    n = len(bits) // k
+    b = np.asarray(bits[:n * k], dtype=np.int64).reshape(n, k)
+    val = np.zeros(n, dtype=np.int64)
+    for j in range(k):
+        val = 2 * val + b[:, j]
+    return val
+
+
+def hdd_rows_oracle(M, x, out, how, v):
+    """the HDD clauses, vectorised: x, out boolean arrays of whole symbols"""
+    a, b = x.reshape(-1, M), out.reshape(-1, M)
+    cin = a.sum(axis=1)
+    bad = np.flatnonzero(b.sum(axis=1) != 1)
+    if bad.size:
+        i = bad[0]
+        v.append((f'HDD:not-one-ON:{sym_kind(np.flatnonzero(a[i]))}-symbol', f'{how}: output symbol {i} has ON slots '
+                  f'{np.flatnonzero(b[i]).tolist()[:16]} (input ON slots {np.flatnonzero(a[i]).tolist()[:16]}); {bad.size} symbols'))
+        return
+    bad = np.flatnonzero((cin == 1) & (a != b).any(axis=1))
+    if bad.size:
+        v.append(('HDD:valid-symbol-changed', f'{how}: symbol {bad[0]} had exactly one ON slot {np.flatnonzero(a[bad[0]]).tolist()}, '
+                                              f'output has {np.flatnonzero(b[bad[0]]).tolist()}; {bad.size} symbols'))
+    bad = np.flatnonzero((cin > 1) & (b & ~a).any(axis=1))
+    if bad.size:
+        v.append(('HDD:kept-slot-was-not-ON', f'{how}: symbol {bad[0]} had ON slots {np.flatnonzero(a[bad[0]]).tolist()[:16]}, output keeps '
+                                              f'slot {np.flatnonzero(b[bad[0]]).tolist()}; {bad.size} symbols'))
+
+
+def long_case(case):
+    """case = ('long', M, nsym, rem, what, seed): one seeded word of nsym symbols + rem surplus bits, vectorised oracles.
+    what = 'encdec': encoder (length, one ON per block, big-endian position, truncation) and decoder;
+    'hdd:<pattern>': HDD on the codeword (identity) / on the codeword with erased + extra slots / with balanced erased and
+    extra slots (first symbol, symbols 65535, 65536 and the last symbol included), under the real generator (2 seeds) and
+    scripted last-candidate answers; 'sdd': SDD on the noiseless waveform and on waveform + integer field, sps 1 and 2"""
+    from opticomlib.ppm import PPM_ENCODER, PPM_DECODER, HDD, SDD
+    from opticomlib.typing import binary_sequence
+    _, M, nsym, rem, what, seed = case
+    k = log2i(M)
+    rs = np.random.RandomState(zlib.crc32(repr((M, nsym, rem, seed)).encode()))
+    bits = rs.randint(0, 2, nsym * k + rem).astype(np.uint8)
+    pos = ref_positions(bits, M)
+    cw = np.zeros(nsym * M, dtype=bool)
+    cw[np.arange(nsym) * M + pos] = True
+    v = Viol()
+    obs = []
+    tag = f'M={M}, {nsym} symbols + {rem} bits (seeded word)'
+    enc_out = None
+    for name, obj in (('ndarray:uint8', bits), ('binary_sequence', binary_sequence(bits)), ('list', bits.tolist())) if what == 'encdec' else ():
+        y = PPM_ENCODER(obj, M)
+        if enc_out is None:
+            enc_out = y
+        a = np.asarray(data_of(y)[0]).ravel()
+        if a.size != nsym * M:
+            v.append(('ENC:length', f'{tag} form={name}: output has {a.size} slots, expected {nsym}*{M}'))
+            continue
+        rows = (a != 0).reshape(nsym, M)
+        if ((a != 0) & (a != 1)).any() or (rows.sum(axis=1) != 1).any():
+            i = int(np.flatnonzero(rows.sum(axis=1) != 1)[:1].sum())
+            v.append(('ENC:not-one-ON-per-block', f'{tag} form={name}: block {i} has ON slots {np.flatnonzero(rows[i]).tolist()[:16]}'))
+        elif (rows.argmax(axis=1) != pos).any():
+            i = int(np.flatnonzero(rows.argmax(axis=1) != pos)[0])
+            v.append(('ENC:position-not-big-endian', f'{tag} form={name}: block {i} ON at {rows[i].argmax()}, big-endian value of its bits is {pos[i]}'))
+        obs.append(zlib.crc32(np.packbits(a != 0).tobytes()))
+    trunc = bits[:nsym * k]
+    dforms = [('ndarray:bool', cw), ('encoder output object', enc_out)]
+    if cw.size <= 300000:
+        dforms.append(('str', ''.join('01'[int(b)] for b in cw)))
+    for name, obj in dforms if what == 'encdec' else ():
+        z = np.asarray(data_of(PPM_DECODER(obj, M))[0]).ravel()
+        if z.size != trunc.size or (z != trunc).any():
+            v.append(('DEC:roundtrip' if name.startswith('encoder') else 'DEC:codeword->bits',
+                      f'{tag} form={name}: decoder output ({z.size} bits) is not the word truncated to whole symbols ({trunc.size} bits)'
+                      + (f'; first difference at bit {int(np.flatnonzero(z != trunc)[0])}' if z.size == trunc.size else '')))
+        obs.append(zlib.crc32(np.packbits(z != 0).tobytes()))
+    # HDD
+    marks = sorted({0, 1, min(65535, nsym - 1), min(65536, nsym - 1), nsym - 2, nsym - 1})
+    pats = {'codeword': cw}
+    x = cw.copy().reshape(nsym, M)
+    hit = np.unique(np.concatenate([rs.randint(0, nsym, max(8, nsym // 8)), marks]))
+    for j, i in enumerate(hit):
+        if j % 2:
+            x[i] = False
+        else:
+            x[i, rs.randint(0, M, 1 + rs.randint(M))] = True
+    pats['erased+extra'] = x.reshape(-1).copy()
+    x = cw.copy().reshape(nsym, M)
+    for i in hit[:-1:2]:                       # balanced: symbol i emptied, symbol i+1 gets a second ON slot
+        if i + 1 < nsym and i + 1 not in hit[::2]:
+            x[i] = False
+            x[i + 1, (pos[i + 1] + 1 + rs.randint(M - 1)) % M] = True
+    pats['balanced'] = x.reshape(-1).copy()
+    for pname, p in pats.items():
+        if what != 'hdd:' + pname:
+            continue
+        for how in ('np.random.seed(0)', 'np.random.seed(1)', 'scripted: last candidate'):
+            obj = p.copy() if how.endswith('(0)') else binary_sequence(p) if how.endswith('(1)') else p.astype(np.uint8)
+            snap = arg_snapshot(obj)
+            if how.startswith('scripted'):
+                oc = call_hdd_raw(obj, M, TreeRNG(fill=-1))
+                if oc[0] == 'exc':
+                    v.append((f'HDD:raises:{oc[1]}', f'{tag} pattern={pname} {how}: {oc[2]}'))
+                    continue
+                out = np.asarray(data_of(oc[1])[0]).ravel()
+            else:
+                np.random.seed(int(how[-2]))
+                out = np.asarray(data_of(HDD(obj, M))[0]).ravel()
+            arg_modified('HDD', type(obj).__name__, obj, snap, v)
+            if out.size != p.size:
+                v.append(('HDD:length', f'{tag} pattern={pname} {how}: output has {out.size} slots, expected {p.size}'))
+                continue
+            hdd_rows_oracle(M, p, out != 0, f'{tag} pattern={pname} {how}', v)
+            obs.append(zlib.crc32(np.packbits(out != 0).tobytes()))
+    # SDD
+    if what == 'sdd':
+        for sps in (1, 2):
+            gv_reset(sps=sps, R=1e9)
+            wave = np.repeat(cw.astype(float), sps)
+            field = wave * 100 + rs.randint(0, 90, wave.size)
+            for wname, w, key in (('noiseless waveform of the codeword', wave, 'SDD:not-identity-on-waveform:long'),
+                                  ('codeword waveform + integer field', field, 'SDD:not-argmax:long')):
+                y = SDD(w, M)
+                vals, _ = check_sdd_general(y, w, M, sps, 0.0, f'{tag} sps={sps} {wname}', key, v)
+                obs.append(zlib.crc32(np.packbits(vals != 0).tobytes()))
+        gv_reset()
+    return res(viol=_dedup(v), obs=(M, nsym, rem, what, tuple(obs)), nontrivial=(M, nsym, rem, what), stats={'long_symbols': nsym})
+
+
 # =========================================================================== part 4: ValueError clauses
 def ve_bits(length):
     return [(i * 7 + i // 3) % 2 for i in range(length)]
@@ -760,7 +1344,7 @@ def ve_case(case):
     _, fn, clause, M, length, form, sps = case
     v = Viol()
     if fn == 'HDD':
-        obj = container_forms(ve_bits(length), group=M)[form]
+        obj = container_forms(ve_bits(length), group=abs(M))[form]
         call = lambda: HDD(obj, M)  # noqa
     else:
         gv_reset(sps=sps, R=1e9)
@@ -812,7 +1396,8 @@ def hdd_spaces(tier):
            {2: range(1, 9), 4: range(1, 5), 8: range(1, 3), 16: range(1, 2)}
     for M, ns in full.items():
         for n in ns:
-            extras = ('forms', 'real') if n * M <= 12 else ()
+            # 'forms+': every dtype / element type / layout / write-protected container (quick: patterns <= 8 slots)
+            extras = (('forms+' if (n * M <= 8 or not quick) else 'forms'), 'real') if n * M <= 12 else ()
             parts.append((f'hdd.full.M{M}.n{n}', [('hdd', M, s, None, extras) for s in all_patterns(M, n)], 300))
     # (b) EVERY slot pattern, deviation-bounded tree (quick only: 13..16 slots; thorough explores these fully above)
     if quick:
@@ -831,7 +1416,8 @@ def hdd_spaces(tier):
             name = f'hdd.kinds.M{M}.n{n}.' + ('full' if dev is None else f'dev{dev}')
             # container forms here as well: the grouped string spellings ('<M slots> <M slots>') of the orders >= 8 need
             # >= 2 symbols, i.e. more slots than the exhaustive <= 12-slot patterns above have
-            parts.append((name, [('hdd', M, s, dev, ('forms',)) for s in itertools.product(kinds, repeat=n)], 3600 if dev is None else 600))
+            parts.append((name, [('hdd', M, s, dev, ('forms+' if n == 1 else 'forms',)) for s in itertools.product(kinds, repeat=n)],
+                          3600 if dev is None else 600))
     long_seq = [(4, 5, 1), (8, 3, 2), (8, 4, 2)] if quick else [(4, 5, 2), (8, 3, None), (8, 4, 2), (8, 5, 2)]
     for M, n, dev in long_seq:
         kinds = symbol_kinds(M)
@@ -845,7 +1431,9 @@ def enc_spaces(tier, seed):
     parts = []
     # string spellings: every one for every word in the thorough tier; quick: every one up to 8 bits, the core five above
     bulk = 'core' if quick else 'all'
-    words = [('enc', M, L, val, 'all' if L <= 8 else bulk) for L in range(0, 13) for val in range(2 ** L) for M in ORDERS]
+    # every sample dtype / element type / layout / write-protected variant: words up to 8 bits (thorough: all)
+    words = [('enc', M, L, val, 'all' if L <= 8 else bulk, 'all' if (L <= 8 or not quick) else True)
+             for L in range(0, 13) for val in range(2 ** L) for M in ORDERS]
     parts.append(('encdec.words<=12bits', words, 120))
     # every ordered pair / triple of symbol values
     seq = []
@@ -928,9 +1516,12 @@ def ve_spaces(tier):
         return hforms + [k for k in string_spellings(ve_bits(length), M) if k != 'str']
 
     for M in NON_POWERS:
-        for length in sorted({M, 2 * M, 4 * M, 8, 16, 24}):
-            for form in hdd_forms(M, length):
+        for length in sorted({abs(M), 2 * abs(M), 4 * abs(M), 8, 16, 24}):
+            for form in hdd_forms(abs(M), length):
                 cases.append(('ve', 'HDD', 'order-not-power-of-two', M, length, form, 0))
+    for length in (8, 16):
+        for form in hforms:
+            cases.append(('ve', 'HDD', 'order-zero', 0, length, form, 0))
     for M in ORDERS:
         ls = range(1, 3 * M) if M <= 8 else (1, M // 2, M - 1, M + 1, 2 * M - 1, 2 * M + 1, 3 * M + M // 2)
         for length in ls:
@@ -938,11 +1529,13 @@ def ve_spaces(tier):
                 for form in hdd_forms(M, length):
                     cases.append(('ve', 'HDD', 'length-not-whole-symbols', M, length, form, 0))
     sforms = ['ndarray', 'electrical_signal', 'electrical_signal+zero-noise']
-    for sps in (2, 5, 16):
+    for sps in (1, 2, 5, 16):
         for M in NON_POWERS:
-            for length in sorted({M * sps, 2 * M * sps, 16 * sps}):
+            for length in sorted({abs(M) * sps, 2 * abs(M) * sps, 16 * sps}):
                 for form in sforms:
                     cases.append(('ve', 'SDD', 'order-not-power-of-two', M, length, form, sps))
+        for form in sforms:
+            cases.append(('ve', 'SDD', 'order-zero', 0, 16 * sps, form, sps))
         for M in ORDERS:
             base = M * sps
             for length in sorted({1, sps, base - 1, base + 1, base + sps, 2 * base - sps, 2 * base + 1, base + base // 2}):
@@ -957,20 +1550,63 @@ def conformance_space(tier, seed):
     cases = []
     for M in ORDERS:
         nslots = M * -(-2000 // M)
-        for dens in sorted({0.5 / M, 1.0 / M, 0.5, 0.9}):
-            for rseed in range(8):
+        for dens in sorted({0.5 / M, 1.0 / M, 0.5, 0.9}) + [0.0, 1.0, 'balanced']:
+            for rseed in range(8 if not isinstance(dens, str) and 0 < dens < 1 else 2):
                 for f in range(1 if quick else 4):
                     cases.append(('hddreal', M, nslots, dens, rseed, seed * 100 + f))
     return [('hdd.real-rng-conformance', cases, 300)]
 
 
+def harden_spaces(tier, seed):
+    """input classes of the generic hardening pass: list of (part, case function, cases, horizon)"""
+    quick = tier == 'quick'
+    parts = []
+    # order given as numpy scalar / 0-d array / float-valued
+    mf = [('mform', M, form, seed) for form in M_FORMS_EQUAL + M_FORMS_EITHER for M in ORDERS if make_order(M, form) is not None]
+    parts.append(('order-scalar-types', order_form_case, mf, 120))
+    # records of zero symbols
+    deg = [('empty', fn, M, form) for fn in ('ENC', 'DEC', 'HDD', 'SDD') for M in (2, 16, 256)
+           for form in (('list', 'tuple', 'ndarray:float64') if fn == 'SDD' else ('list', 'tuple', 'ndarray:bool', 'ndarray:float64'))]
+    parts.append(('zero-symbols', degenerate_case, deg, 120))
+    # SDD: sample dtype x container/noise layout (full product) and scale x float dtype x 3 layouts
+    gen = []
+    for M in (2, 8, 256) if quick else ORDERS:
+        for sps in (1, 2, 5, 16):
+            nsym = max(4, 64 // M)
+            for scale in SDD_SCALES:
+                for dt in SDD_DTYPES:
+                    for lay in SDD_LAYOUTS if scale == 1.0 else ('ndarray', 'electrical_signal+split:same', 'electrical_signal+split:float32'):
+                        if sdd_variant_exists(dt, lay, scale):
+                            gen.append(('sddgen', M, sps, nsym, dt, lay, scale, seed))
+    gen.sort(key=lambda c: (c[6] != 1.0, c[1] * c[2]))
+    parts.append(('sdd.dtypes-layouts-scales', sdd_general_case, gen, 120))
+    # SDD after the grid was reconfigured: one configuration, then every a -> b -> a
+    lays = ('ndarray', 'electrical_signal', 'electrical_signal+split:float32')
+    orders = (2, 16, 256) if quick else tuple(ORDERS)
+    n = len(GV_MENU)
+    seqs = [(i,) for i in range(n)] + [(i, j, i) for i in range(n) for j in range(n) if i != j]
+    parts.append(('sdd.gv-call-histories', sdd_gv_sequence_case, [('sddseq', q, lay, orders, seed) for q in seqs for lay in lays], 120))
+    # records beyond 2^16 slots / symbols
+    sizes = [(2, 70001), (4, 65537), (16, 4097), (256, 257), (256, 300)] if quick else \
+            [(2, 70001), (2, 131073)] + [(M, 65537) for M in ORDERS] + [(M, 65536 // M + 1) for M in ORDERS[4:]]
+    longs = []
+    for M, nsym in sizes:
+        for what in ('encdec', 'hdd:codeword', 'hdd:erased+extra', 'hdd:balanced', 'sdd'):
+            if what == 'sdd' and nsym * M > 2 ** 21:
+                continue
+            longs.append(('long', M, nsym, log2i(M) - 1, what, seed))
+    longs.sort(key=lambda c: -c[1] * c[2])          # the big ones first: they are the critical path of this part
+    parts.append(('long-records', long_case, longs, 600))
+    return parts
+
+
 # =========================================================================== driver
 REGRESS = [
     # smallest members of each part; run first so that a broken tree reports within a second
-    (hdd_case, ('hdd', 2, ((0, 1),), None, ('forms', 'real'))),
-    (hdd_case, ('hdd', 4, ((), (1, 2)), None, ('forms', 'real'))),
-    (enc_case, ('enc', 4, 2, 0b01, 'all')),          # one 4-ary symbol: bit order
-    (enc_case, ('enc', 2, 2, 0b01, 'all')),          # two binary symbols: position modulo M
+    (hdd_case, ('hdd', 2, ((0, 1),), None, ('forms+', 'real'))),
+    (hdd_case, ('hdd', 4, ((), (1, 2)), None, ('forms+', 'real'))),
+    (enc_case, ('enc', 4, 2, 0b01, 'all', 'all')),          # one 4-ary symbol: bit order
+    (enc_case, ('enc', 2, 2, 0b01, 'all', 'all')),          # two binary symbols: position modulo M
     (sdd_dac_case, ('sdddac', 2, 2, 'nrz', (1,))),
     (sdd_dac_case, ('sdddac', 4, 2, 'rz', (1, 3))),
 ]
@@ -1031,6 +1667,10 @@ def run(ctx):
     # ---- SDD
     for name, cases, horizon in sdd_spaces(tier, seed):
         fn = {'sdddac': sdd_dac_case, 'sddarg': sdd_argmax_case, 'sddperm': sdd_perm_case, 'sddtie': sdd_tie_case}[cases[0][0]]
+        ctx.pmap(name, fn, cases, horizon=horizon, recheck=2)
+
+    # ---- hardening pass: order scalar types, zero symbols, SDD dtypes/layouts/scales, gv call histories, long records
+    for name, fn, cases, horizon in harden_spaces(tier, seed):
         ctx.pmap(name, fn, cases, horizon=horizon, recheck=2)
 
     # ---- ValueError clauses
